@@ -82,6 +82,7 @@ func (q *rpcQueue) push(rpc *RPC, urgent bool, block bool) error {
 
 	for q.queue.Len() == q.maxSize {
 		if block {
+			verifSchedPoint("rpcqueue.push.beforeWait")
 			q.spaceAvailable.Wait()
 			// It can receive a signal because the queue is closed.
 			if q.closed {
